@@ -17,6 +17,7 @@ from . import ops, spec as sp
 from .interp import Interp, Ctx, PyExc, Infeasible, ExcVal, NoForkAbort
 from .loops import LoopBodyDone, as_formula
 from .builtins_model import deep_copy
+from .values import NpInt as NpIntT
 
 HERE = os.path.dirname(os.path.abspath(__file__))
 VENV_PY = "/venv/bin/python"
@@ -201,6 +202,7 @@ def run_path(contract, I, decisions, model=None):
     pre = None
     ctx.np_floats = bool(contract.np_floats)
     ops.NP_FLOATS[0] = ctx.np_floats
+    ctx.asserts_may_raise = contract.raises == "allowed"
     if getattr(contract, "merge", False):
         ctx.merge_mode += 1  # simple conditionals are merged (ite) instead of forking the path
     try:
@@ -634,6 +636,8 @@ def enc(v, memo):
         return {"t": "none"}
     if isinstance(v, bool):
         return {"t": "bool", "v": v}
+    if isinstance(v, NpIntT):
+        return {"t": "npint", "v": int(v)}
     if isinstance(v, int):
         return {"t": "int", "v": v}
     if isinstance(v, Fraction):
@@ -681,6 +685,8 @@ def dec(j, memo, I):
     t = j["t"]
     if t == "none":
         return None
+    if t == "npint":
+        return NpIntT(j["v"])
     if t in ("bool", "int", "str"):
         return j["v"]
     if t == "float":
